@@ -193,7 +193,7 @@ def wellformed(kind, ttype, tag):
     if kind == "v2value":
         return '"Johnny-%s"' % tag
     if kind == "v2fromname":
-        return 'flow bot inform weather\n  bot say "BOT-%s"' % tag
+        return '  bot say "BOT-%s"' % tag  # header-less body: valid for whatever flow name was asked for
     if kind == "v2single":
         return 'user intent: user asked something\nbot intent: bot answer\nbot action: bot say "BOT-%s"' % tag
     return "BOT-%s" % tag
@@ -208,7 +208,7 @@ HOSTILE = [
     "user intent: user asked", "user intent:", "bot intent: bot answer", "bot intent: x", 'bot action: bot say "x"', "bot action:", "bot action: bot say", "bot action: foo bar baz",
     'user action: user said "x"', 'user intent: user said "x" and user y', "user intent: user (weird) name's \"q\"",
     'bot intent: bot a\nbot action: bot say "a"\n  and bot say "b"', "bot intent: bot z\nbot action: bot say 'single'", 'bot action: bot gesture "wave"',
-    'bot intent: bot x\nbot action: bot say "unterminated', "bot action: bot say 1337", "bot action: bot say None", "bot action: bot say $undefined_thing",
+    'bot intent: bot x\nbot action: bot say "unterminated', "bot action: bot say 4242", "bot action: bot say None", "bot action: bot say $undefined_thing",
     "define flow", "define flow x\n  bot y", 'define user x\n  "y"', "define bot", "define", 'flow x\n  bot say "y"', "flow", "flow main", "if $x\n  bot a", "if", "else", "when", "while True",
     "while True\n  bot a", "stop", "abort", "return", "return 5", "pass", "break", "continue", "execute foo", "execute", "$x = ...", "...", "# comment only", "await UnknownAction()", "match Never()",
     'send StopFlow(flow_id="main")', "bot action: await UnknownAction()", "bot action: match Never()", 'bot action: send StopFlow(flow_id="main")', "bot action: $x = 1/0", "bot action: abort",
@@ -279,18 +279,22 @@ def _positions(mode, ttypes):
     return out
 
 
+def _mk(markers, text):
+    return [m for m in markers if m not in text]  # a marker the text spells literally proves nothing
+
+
 def _texts_for(kind, full):
     """(origin, text, markers) triples for one call kind."""
     out = []
     for i, h in enumerate(HOSTILE):
-        out.append(("corpus%d" % i, h, ALL_MARKERS if kind in PURE_MESSAGE_KINDS else []))
+        out.append(("corpus%d" % i, h, _mk(ALL_MARKERS, h) if kind in PURE_MESSAGE_KINDS else []))
     car = CARRIERS.get(kind)
     if car:
         for i, (tx, mk) in enumerate(TAINT):
-            out.append(("taint%d" % i, car(tx), [mk]))
-            out.append(("taintw%d" % i, car("The value is %s ok" % tx), [mk]))
+            out.append(("taint%d" % i, car(tx), _mk([mk], tx)))
+            out.append(("taintw%d" % i, car("The value is %s ok" % tx), _mk([mk], tx)))
         if kind not in PURE_MESSAGE_KINDS:
-            hs = HOSTILE if full else HOSTILE[::3]
+            hs = (HOSTILE[::2] if kind.startswith("v2") else HOSTILE) if full else HOSTILE[::3]
             for i, h in enumerate(hs):
                 if len(h) < 200:
                     out.append(("slot%d" % i, car(h), []))
@@ -300,20 +304,26 @@ def _texts_for(kind, full):
 def cases(tier, seed):
     i = 0
     rng = random.Random(1700 + seed)
-    # 1. every corpus/taint text at every position of every one-turn conversation
+    quick = tier == "quick"
+    # 1. corpus + taint carriers at every call position of every one-turn conversation.
+    #    quick: the whole corpus the first time a (mode, kind) pair occurs (v2: a seeded third), a seeded third
+    #    (v2: ninth) at repeats of the pair in other turn types; thorough: everything everywhere.
+    seen_pairs = set()
     for mode, (ver, co, y, kinds) in MODES.items():
         for tt in kinds:
             pos = _positions(mode, [tt])
             for p, (t, _tt, k) in enumerate(pos):
-                texts = _texts_for(k, tier != "quick")
-                if tier == "quick" and ver == "v2":
-                    # v2 turns cost ~0.6 s: the taint carriers and a seeded half of the corpus
-                    texts = [x for j, x in enumerate(texts) if x[0].startswith("taint") or (j + seed) % 2 == 0]
+                first = (mode, k) not in seen_pairs
+                seen_pairs.add((mode, k))
+                texts = _texts_for(k, not quick)
+                if quick:
+                    stride = (1 if first else 3) * (3 if ver == "v2" else 1)
+                    texts = [x for j, x in enumerate(texts) if (x[0].startswith("taint") and not x[0].startswith("taintw") and first) or (not x[0].startswith("taint") and (j + seed) % stride == 0)]
                 for origin, text, markers in texts:
                     i += 1
                     yield {"id": i, "mode": mode, "ttypes": [tt], "pos": p, "kind": k, "origin": origin, "text": text, "markers": markers}
     # 2. sampled multi-turn conversations: corpus, carriers and mutations at a random position
-    n1, n2 = (900, 160) if tier == "quick" else (14000, 2200)
+    n1, n2 = (900, 140) if quick else (14000, 1200)
     for ver, n in (("v1", n1), ("v2", n2)):
         modes = [m for m in MODES if MODES[m][0] == ver]
         for _ in range(n):
@@ -330,7 +340,7 @@ def cases(tier, seed):
                 other = wellformed(rng.choice(sorted(set(sum(kinds.values(), [])))), tt, "O")
                 text = mutate(rng, w, other)
                 origin = "mutation"
-                markers = ALL_MARKERS if k in PURE_MESSAGE_KINDS else []
+                markers = _mk(ALL_MARKERS, text) if k in PURE_MESSAGE_KINDS else []
             else:
                 origin, text, markers = rng.choice(_texts_for(k, True))
             i += 1
@@ -339,6 +349,13 @@ def cases(tier, seed):
 
 # ----------------------------------------------------------------------------- the application under observation
 _W = {}
+# actions whose job is to post-process an LLM completion (v1 names / v2 names)
+LLM_ACTIONS = {
+    "generate_user_intent", "generate_next_step", "generate_bot_message", "generate_intent_steps_message",
+    "GenerateUserIntentAction", "GenerateFlowContinuationAction", "GenerateFlowFromNameAction", "GenerateUserIntentAndBotAction",
+    "generate_flow_continuation", "generate_flow_from_name", "generate_user_intent_and_bot_action",
+}
+VALUE_ACTIONS = {"generate_value", "GenerateValueAction"}
 
 
 class HApp:
@@ -354,19 +371,34 @@ class HApp:
         self.app = L["LLMRails"](cfg, llm=self.llm)
         tm = self.app.runtime.llm_task_manager
         orig = tm.render_task_prompt
-        if not callable(orig):
-            raise RuntimeError("hook-missing: llm_task_manager.render_task_prompt")
+        disp = self.app.runtime.action_dispatcher
+        orig_exec = disp.execute_action
+        if not callable(orig) or not callable(orig_exec):
+            raise RuntimeError("hook-missing: render_task_prompt / execute_action")
         self.renders = 0
+        self.failed = []
 
         def wrapped(task, *a, **k):
             self.last_task = getattr(task, "value", str(task))
             self.renders += 1
             return orig(task, *a, **k)
 
+        async def wrapped_exec(action_name, params):
+            res = await orig_exec(action_name, params)
+            if isinstance(res, tuple) and len(res) == 2 and res[1] == "failed":
+                self.failed.append(action_name)
+            return res
+
         tm.render_task_prompt = wrapped
+        disp.execute_action = wrapped_exec
         self.last_task = None
         self.uses = 0
+        self.flow_ids = set(self.app.runtime.flow_configs)
         self.reset(None, None, "x")
+
+    def polluted(self):
+        """v2 keeps LLM-generated flows in the runtime-wide flow table until they are removed; v1 multi-step never removes them."""
+        return self.ver == "v2" and set(self.app.runtime.flow_configs) != self.flow_ids
 
     def reset(self, pos, text, tag):
         self.hpos, self.htext, self.tag = pos, text, tag
@@ -375,6 +407,8 @@ class HApp:
         self.hit_kind = None
         self.ttype = "free"
         self.turn = 0
+        self.failed = []
+        self.max_steps = 0
 
     def _script(self, prompt):
         idx = self.ncalls
@@ -397,7 +431,7 @@ def get_app(mode, fresh=False, reuse=40):
     if fresh:
         return HApp(mode)
     a = _W.get(mode)
-    if a is None or a.uses >= reuse:
+    if a is None or a.uses >= reuse or a.polluted():
         a = HApp(mode)
         _W[mode] = a
     a.uses += 1
@@ -405,23 +439,32 @@ def get_app(mode, fresh=False, reuse=40):
 
 
 def setup_worker():
+    import importlib
+
     from . import rails, steps
 
     rails.load()
     import nemoguardrails.actions.llm.generation as g1
     import nemoguardrails.actions.v2_x.generation as g2
     import nemoguardrails.colang.v1_0.runtime.runtime as r1
-    import nemoguardrails.colang.v2_x.runtime.eval as ev
     import nemoguardrails.colang.v2_x.runtime.runtime as r2
-    import nemoguardrails.colang.v2_x.runtime.statemachine as sm
     from nemoguardrails.actions.llm.utils import LLMCallException
+    from nemoguardrails.colang import parse_colang_file
 
-    for mod, names in ((g1.LLMGenerationActions, ("generate_user_intent", "generate_next_step", "generate_bot_message", "generate_value", "generate_intent_steps_message")), (g2.LLMGenerationActionsV2dotx, ("generate_user_intent", "generate_flow_continuation", "generate_value", "generate_flow_from_name", "generate_user_intent_and_bot_action")), (r1.RuntimeV1_0, ("_process_start_flow",)), (r2.RuntimeV2_x, ("_add_flows_action",))):
+    for mod, names in ((g1.LLMGenerationActions, ("generate_user_intent", "generate_next_step", "generate_bot_message", "generate_value", "generate_intent_steps_message")), (g2.LLMGenerationActionsV2dotx, ("generate_user_intent", "generate_flow_continuation", "generate_value", "generate_flow_from_name", "generate_user_intent_and_bot_action")), (r1.RuntimeV1_0, ("_process_start_flow", "_compute_next_steps")), (r2.RuntimeV2_x, ("_add_flows_action",))):
         for n in names:
             if not hasattr(mod, n):
                 raise RuntimeError("symbol vanished: %s.%s" % (mod.__name__, n))
     _W["LLMCallException"] = LLMCallException
-    _W["codes"] = steps.install([sm, ev, r1, r2])
+    _W["parse"] = parse_colang_file
+    mods = []
+    for name in (
+        "colang.v1_0.lang.colang_parser", "colang.v1_0.lang.utils", "colang.v1_0.lang.coyml_parser", "colang.v1_0.lang.parser",
+        "colang.v1_0.runtime.runtime", "colang.v1_0.runtime.flows", "colang.v1_0.runtime.sliding",
+        "colang.v2_x.runtime.statemachine", "colang.v2_x.runtime.eval", "colang.v2_x.runtime.runtime", "colang.v2_x.lang.expansion",
+    ):
+        mods.append(importlib.import_module("nemoguardrails." + name))
+    _W["codes"] = steps.install(mods)
 
 
 def user_text(cid, t, ttype):
@@ -431,11 +474,13 @@ def user_text(cid, t, ttype):
     return "%s-%s-%d tell me" % (UTOK, cid, t)
 
 
-STEP_BUDGET = 3_000_000
+# logical step budgets (function entries into the instrumented interpreter/parser modules) per turn; the largest
+# well-behaved turn seen during calibration: v1 ~45k (300-line generated flow), v2 ~2M (bounded flow-generation recursion)
+STEP_BUDGET = {"v1": 600_000, "v2": 8_000_000}
 
 
 def play(app, case, cid):
-    """Runs the conversation; returns list of per-turn (reply, exception)."""
+    """Runs the conversation; returns list of per-turn (reply, exception, failed actions)."""
     from . import steps
 
     app.reset(case["pos"], case["text"], cid)
@@ -445,13 +490,14 @@ def play(app, case, cid):
     state = {}
     for t, tt in enumerate(case["ttypes"]):
         app.turn, app.ttype = t, tt
+        app.failed = []
         text = user_text(cid, t, tt) if app.ver == "v2" else "%s-%s-%d tell me %s" % (UTOK, cid, t, tt)
-        steps.start(STEP_BUDGET)
+        steps.start(STEP_BUDGET[app.ver])
         try:
             if app.ver == "v1":
                 msgs.append({"role": "user", "content": text})
                 r = app.app.generate(messages=list(msgs))
-                out.append((r, None))
+                out.append((r, None, list(app.failed)))
                 c = r.get("content") if isinstance(r, dict) else None
                 msgs.append({"role": "assistant", "content": c if isinstance(c, str) else "(none)"})
             else:
@@ -460,21 +506,21 @@ def play(app, case, cid):
                 state = getattr(r, "state", state)
                 if isinstance(resp, list) and len(resp) == 1:
                     resp = resp[0]
-                out.append((resp, None))
-        except Exception as e:  # observation, judged below
-            out.append((None, e))
+                out.append((resp, None, list(app.failed)))
+        except (Exception, steps.StepBudgetExceeded) as e:  # observation, judged below
+            out.append((None, e, list(app.failed)))
             break
         finally:
-            app.max_steps = max(getattr(app, "max_steps", 0), steps.stop())
+            app.max_steps = max(app.max_steps, steps.stop())
     return out
 
 
-def judge_reply(reply, exc, markers, llm_call_exception):
+def judge_reply(reply, exc, markers, failed, llm_call_exception):
     """The oracle. Returns None or (mechanism, detail)."""
     if exc is not None:
         if isinstance(exc, llm_call_exception):
             return None
-        return ("raised", exc)
+        return ("raised" if isinstance(exc, Exception) else "nonterminating", exc)
     if not isinstance(reply, dict) or reply.get("role") not in ("assistant", "exception"):
         return ("malformed-reply", "not a message dict: %r" % (reply,))
     c = reply.get("content")
@@ -486,33 +532,62 @@ def judge_reply(reply, exc, markers, llm_call_exception):
         for m in markers:
             if m in c:
                 return ("taint-evaluated", m)
+    broken = [a for a in failed if a in LLM_ACTIONS]
+    if broken:
+        return ("llm-postprocessing-crashed", broken[0])
     return None
 
 
+ANCHOR_FILES = ("actions/llm/generation.py", "actions/llm/utils.py", "actions/v2_x/generation.py", "llm/output_parsers.py", "llm/taskmanager.py", "colang/v1_0/runtime/runtime.py", "colang/v2_x/runtime/runtime.py", "rails/llm/llmrails.py")
+
+
 def _raise_site(e):
+    """(site string, set of function names on the traceback)"""
     import os
     import traceback
 
     tb = traceback.extract_tb(e.__traceback__)
     fr = [f for f in tb if "nemoguardrails" in f.filename] or list(tb)
-    f = fr[-1] if fr else None
-    return "%s@%s:%s" % (type(e).__name__, os.path.basename(f.filename) if f else "?", f.name if f else "?")
+    names = {f.name for f in fr}
+    anchored = [f for f in fr if f.filename.replace(os.sep, "/").endswith(ANCHOR_FILES)]
+    inner = fr[-1] if fr else None
+    a = anchored[-1] if anchored else inner
+    site = "%s:%s" % (os.path.basename(a.filename), a.name) if a else "?"
+    if inner is not None and inner is not a and isinstance(e, Exception):
+        site += ">%s:%s" % (os.path.basename(inner.filename), inner.name)
+    return site, names
 
 
 def _run(app, case, cid):
     turns = play(app, case, cid)
     problem = None
-    hturn = None
-    for t, (reply, exc) in enumerate(turns):
-        v = judge_reply(reply, exc, case["markers"], _W["LLMCallException"])
+    for t, (reply, exc, failed) in enumerate(turns):
+        v = judge_reply(reply, exc, case["markers"], failed, _W["LLMCallException"])
         if v:
             mech, det = v
-            if mech == "raised":
-                problem = {"mech": "raised:" + _raise_site(det), "detail": "%s: %s" % (type(det).__name__, str(det)[:300]), "turn": t}
+            if mech in ("raised", "nonterminating"):
+                site, names = _raise_site(det)
+                problem = {"mech": "%s:%s@%s" % (mech, type(det).__name__, site) if mech == "raised" else "nonterminating@" + site, "detail": "%s: %s" % (type(det).__name__, str(det)[:300]), "turn": t, "through_start_flow": "_process_start_flow" in names, "in_compute_next_steps": "_compute_next_steps" in names, "what": mech}
             else:
-                problem = {"mech": mech, "detail": str(det)[:300], "turn": t}
+                problem = {"mech": mech + (":" + str(det) if mech == "llm-postprocessing-crashed" else ""), "detail": str(det)[:300], "turn": t, "what": mech}
             break
     return turns, problem
+
+
+def _standalone_parse_ok(text):
+    """Structural fact for the classifier: does the generated body pass the validation `generate_next_step` applies (parse on its own)?"""
+    from . import steps
+
+    steps.start(STEP_BUDGET["v1"])
+    try:
+        _W["parse"]("dynamic.co", content=text)
+        return True
+    except Exception:
+        return False
+    except steps.StepBudgetExceeded:
+        return None
+    finally:
+        steps.stop()
 
 
 def run_case(case):
@@ -528,21 +603,24 @@ def run_case(case):
         return dict(base, verdict="inconclusive", reason="app-build-failed:%s" % type(e).__name__, detail=traceback.format_exc()[-800:], nontrivial=False)
     turns, problem = _run(app, case, cid)
     fresh_confirmed = None
-    if problem is not None and app.uses > 1:
+    if (problem is not None or app.hit_kind != case["kind"]) and app.uses > 1:
+        # never blame a case for what an earlier conversation on the same instance left behind
         app2 = get_app(mode, fresh=True)
         turns2, problem2 = _run(app2, case, cid)
-        fresh_confirmed = problem2 is not None and problem2["mech"] == problem["mech"]
-        if not fresh_confirmed:
+        fresh_confirmed = (problem is not None) and problem2 is not None and problem2["mech"] == problem["mech"]
+        if problem is not None and not fresh_confirmed and problem2 is None:
+            _W.pop(mode, None)
             return dict(base, verdict="inconclusive", reason="not-reproducible-on-fresh-instance", detail=repr(problem)[:400], nontrivial=False)
         app, turns, problem = app2, turns2, problem2
-    _W.pop(mode, None) if problem is not None else None  # never keep an instance that saw a violation
-    replies = [("RAISED %s" % type(e).__name__) if e is not None else r for r, e in turns]
+    if problem is not None or app.polluted():
+        _W.pop(mode, None)  # never keep an instance that saw a violation or kept generated flows
+    replies = [("RAISED %s" % type(e).__name__) if e is not None else r for r, e, f in turns]
     sample["replies"] = [str(r)[:160] for r in replies]
-    sample["llm_calls"] = list(app.kinds_seen)
-    obs = {"conversations": 1, "turns": len(turns), "llm_calls": app.ncalls, "prompt_renders_seen": app.renders and 1 or 0, "max_steps_per_turn": getattr(app, "max_steps", 0)}
+    sample["llm_calls"] = list(app.kinds_seen)[:12]
+    obs = {"conversations": 1, "turns": len(turns), "llm_calls": app.ncalls, "prompt_renders_seen": app.renders and 1 or 0}
+    obs["max_steps_per_turn_" + app.ver] = app.max_steps
     obs["mode_pos_%s_%s" % (mode, case["kind"])] = 1
-    obs["positions"] = ["%s/%s/%s" % (mode, "+".join(case["ttypes"][:1]), case["kind"])]
-    for r, e in turns:
+    for r, e, failed in turns:
         if isinstance(r, dict) and isinstance(r.get("content"), str):
             c = r["content"]
             if c == "":
@@ -551,51 +629,74 @@ def run_case(case):
                 obs["internal_error_replies"] = obs.get("internal_error_replies", 0) + 1
         if isinstance(r, dict) and r.get("role") == "exception":
             obs["exception_role_replies"] = obs.get("exception_role_replies", 0) + 1
+        if any(a in VALUE_ACTIONS for a in failed):
+            obs["value_actions_failed_contained"] = obs.get("value_actions_failed_contained", 0) + 1
     if case["markers"]:
         obs["taint_checked_cases"] = 1
         lit = [tx for tx, mk in TAINT if tx in case["text"]]
-        if lit and any(isinstance(r, dict) and isinstance(r.get("content"), str) and any(tx in r["content"] for tx in lit) for r, e in turns):
+        if lit and any(isinstance(r, dict) and isinstance(r.get("content"), str) and any(tx in r["content"] for tx in lit) for r, e, f in turns):
             obs["taint_literal_in_reply"] = 1
     res = dict(base, observed=obs)
     if app.hit_kind is None:
-        return dict(res, verdict="inconclusive", reason="monitor-not-reached", detail="LLM call position %d never reached; calls seen %s" % (case["pos"], app.kinds_seen), nontrivial=False)
+        return dict(res, verdict="inconclusive", reason="monitor-not-reached", detail="LLM call position %d never reached; calls seen %s" % (case["pos"], app.kinds_seen[:12]), nontrivial=False)
     if app.hit_kind != case["kind"]:
-        return dict(res, verdict="inconclusive", reason="position-kind-mismatch", detail="expected %s got %s (%s)" % (case["kind"], app.hit_kind, app.kinds_seen), nontrivial=False)
-    tt = case["ttypes"][[t for t, _tt, k in _positions(mode, case["ttypes"])][case["pos"]]]
-    nontrivial = case["text"] != wellformed(case["kind"], tt, "M")
+        return dict(res, verdict="inconclusive", reason="position-kind-mismatch", detail="expected %s got %s (%s)" % (case["kind"], app.hit_kind, app.kinds_seen[:12]), nontrivial=False)
+    hturn, htt, _k = _positions(mode, case["ttypes"])[case["pos"]]
+    nontrivial = case["text"] != wellformed(case["kind"], htt, "M")
+    if problem is not None and problem["what"] == "nonterminating" and app.ver == "v2":
+        # the Colang 2 interpreter not reaching quiescence is C10's subject (its finding keys); never a verdict here
+        return dict(res, verdict="inconclusive", reason="nonterminating", detail=problem["mech"], nontrivial=False)
     if problem is not None:
         text = case["text"]
+        facts = {}
+        if case["kind"] == "steps":
+            facts["standalone_parse_ok"] = _standalone_parse_ok(text)
         return dict(
             res,
             verdict="violated",
             nontrivial=nontrivial,
             mech=problem["mech"],
-            after_hostile_turn=problem["turn"] > [t for t, _tt, k in _positions(mode, case["ttypes"])][case["pos"]],
+            what=problem["what"],
+            through_start_flow=problem.get("through_start_flow", False),
+            in_compute_next_steps=problem.get("in_compute_next_steps", False),
+            after_hostile_turn=problem["turn"] > hturn,
             brace_expr_in_text=("{" in text and "}" in text),
+            empty_completion=(text.strip() == ""),
+            serialisation_site=("serialization.py" in problem["mech"]),
             fresh_confirmed=fresh_confirmed,
-            witness={
-                "mode": mode,
-                "config_colang": MODES[mode][1],
-                "config_yaml": MODES[mode][2],
-                "turn_types": case["ttypes"],
-                "hostile_call_position": case["pos"],
-                "hostile_call_kind": case["kind"],
-                "hostile_text": text[:600],
-                "llm_calls_seen": app.kinds_seen,
-                "failing_turn": problem["turn"],
-                "mechanism": problem["mech"],
-                "detail": problem["detail"],
-                "replies": sample["replies"],
-                "expected": "generate returns {'role': 'assistant'|'exception', ...} without raising; planted taint not evaluated",
-            },
+            witness=dict(
+                mechanism=problem["mech"],
+                hostile_call=dict(mode=mode, turn_types=case["ttypes"], position=case["pos"], kind=case["kind"], text=text[:600]),
+                detail=problem["detail"],
+                failing_turn=problem["turn"],
+                replies=sample["replies"],
+                llm_calls_seen=app.kinds_seen[:12],
+                expected="generate returns {'role': 'assistant'|'exception', ...} without raising and without a crashed LLM post-processing action; planted taint not evaluated",
+                facts=facts,
+                config_colang=MODES[mode][1],
+                config_yaml=MODES[mode][2],
+            ),
+            **facts
         )
     return dict(res, verdict="held", nontrivial=nontrivial)
 
 
 def classify(r):
-    mode, kind, mech = r.get("mode"), r.get("kind"), r.get("mech", "?")
-    if mech == "taint-evaluated" and str(mode).startswith("v2") and kind in V2_CODE_KINDS and r.get("brace_expr_in_text"):
+    mode, kind, mech, what = r.get("mode"), r.get("kind"), r.get("mech", "?"), r.get("what")
+    if what == "taint-evaluated" and str(mode).startswith("v2") and kind in V2_CODE_KINDS and r.get("brace_expr_in_text"):
         return "v2-llm-bot-say-string-evaluated"
+    if mode == "v1_multi" and kind == "steps" and r.get("through_start_flow") and r.get("standalone_parse_ok"):
+        # the generated body passed generate_next_step's stand-alone validation; the runtime then fails on it, unguarded
+        if what == "nonterminating":
+            return "v1-multistep-start-flow-parse-nonterminating"
+        if what == "raised" and r.get("in_compute_next_steps"):
+            return "v1-multistep-generated-flow-run-unguarded"
+        if what == "raised":
+            return "v1-multistep-start-flow-parse-unguarded"
+    if kind == "v2value" and what == "raised" and r.get("serialisation_site"):
+        return "v2-generated-value-not-serialisable"
+    if what == "llm-postprocessing-crashed" and r.get("empty_completion"):
+        mech += ":empty-completion"
     return "%s:%s:%s" % (mode, kind, mech)
 
 
